@@ -7,8 +7,10 @@
 mod engine;
 mod infra;
 mod mutex;
+mod semaphore;
 
 use engine::{Runner, Sut};
+use futures_intrusive::sync::{GenericSemaphore, GenericSharedSemaphore};
 use infra::*;
 use serde_json::{json, Value};
 use std::collections::HashMap;
@@ -32,6 +34,11 @@ fn make_sut(prim: &str, flavour: &str, consts: &Value) -> Option<Box<dyn Sut>> {
         ("mutex", "local") => Box::new(mutex::MutexSut::<Noop>::new(consts)),
         ("mutex", "pl") => Box::new(mutex::MutexSut::<Pl>::new(consts)),
         ("mutex", "vlock") => Box::new(mutex::MutexSut::<VLock>::new(consts)),
+        ("semaphore", "local") => Box::new(semaphore::SemSut::<GenericSemaphore<Noop>>::new(consts)),
+        ("semaphore", "pl") => Box::new(semaphore::SemSut::<GenericSemaphore<Pl>>::new(consts)),
+        ("semaphore", "vlock") => Box::new(semaphore::SemSut::<GenericSemaphore<VLock>>::new(consts)),
+        ("semaphore", "shared") => Box::new(semaphore::SemSut::<GenericSharedSemaphore<Pl>>::new(consts)),
+        ("semaphore", "shared-vlock") => Box::new(semaphore::SemSut::<GenericSharedSemaphore<VLock>>::new(consts)),
         _ => return None,
     })
 }
